@@ -293,8 +293,33 @@ def gen_curve_case(r, nan_ok=False, max_members=8, depth=4):
     return ops
 
 
-def gen_curves(r, ncases, **kw):
+def gen_pairdrop(r, ncases):
+    """a function curve over a member on sensor s0 FOLLOWED by a member on sensor s1, evaluated by two controllers at once:
+    the first evaluation is suspended in its read of s1, s0 changes (drops or rises by a lot), the second evaluation runs,
+    the first resumes. The first must return the curve's value for the state it read, the second for the new one."""
     ops = []
+    for _ in range(ncases):
+        ops += ["#case cv pairdrop", "cv.reset"]
+        mn0, mn1 = r.range(10, 50), r.range(10, 50)
+        ops.append(f"cv.add id=L0 kind=linear sensor=s0 min={mn0} max={mn0 + r.range(10, 40)} steps=nil")
+        ops.append(f"cv.add id=L1 kind=linear sensor=s1 min={mn1} max={mn1 + r.range(10, 40)} steps=nil")
+        ty = r.pick(["sum", "maximum", "minimum", "average"])
+        ops.append(f"cv.add id=F0 kind=function type={ty} members=L0,L1")
+        ops.append("cv.add id=F1 kind=function type=" + r.pick(["sum", "maximum", "average"]) + " members=F0,L1")
+        t1 = float(r.range(5, 95) * 1000)
+        for _ in range(r.range(2, 6)):
+            t0a, t0b = float(r.range(5, 95) * 1000), float(r.range(5, 95) * 1000)
+            ops.append(f"cv.sensor id=s0 avg={fx(t0a)} val={fx(t0a)}")
+            ops.append(f"cv.sensor id=s1 avg={fx(t1)} val={fx(t1)}")
+            fid = r.pick(["F0", "F0", "F1"])
+            ops.append(f"cv.eval id={fid} now=1000")
+            ops.append(f"cv.evalpair id={fid} gate=s1 n=1 set=s0:{fx(t0b)} now=1000")
+            ops.append(f"cv.eval id={fid} now=1000")
+    return ops
+
+
+def gen_curves(r, ncases, **kw):
+    ops = gen_pairdrop(r, max(4, ncases // 40))
     for _ in range(ncases):
         ops += gen_curve_case(r, **kw)
     return ops
@@ -344,6 +369,9 @@ def gen_fans(r, ncases):
                 ops.append(f"fan.set which={r.pick(['min', 'start', 'max'])} v={r.range(0, 255)} force={r.below(2)}")
             else:
                 ops.append("fan.get")
+        if r.chance(0.5):
+            # a restart of fan2go: the measured curve goes through the database and is attached to a new fan object
+            ops.append("fan.restart")
     return ops
 
 
